@@ -473,8 +473,8 @@ func NewEnv() *Env {
 	e.Cdc = envCdc(e.h)
 	e.Log = envLog(e.h)
 	e.StoreService = envStoreService(e.h)
-	e.Bank = &Bank{}
-	e.FTF = &FTF{}
+	e.Bank = &Bank{h: e.h}
+	e.FTF = &FTF{h: e.h}
 	return e
 }
 
@@ -508,6 +508,24 @@ func (e *Env) RawGet(key []byte) []byte { return envRawGet(e.h, key) }
 
 // AllEntries lists every live entry of the module store in key order.
 func (e *Env) AllEntries() []Write { return envAllEntries(e.h) }
+
+// Marked reports whether the effect of a successful dependency call (name "bank_<n>", "burn_<n>",
+// "mint_<n>") is part of the transaction's state: the recording dependencies leave a marker in the
+// store of the context they are called with, so a call made on a CacheContext branch that is never
+// written leaves none.
+func (e *Env) Marked(name string) bool { return envMarked(e.h, name) }
+
+var markPrefix = []byte("\xffverif/mark/")
+
+// PRIMITIVE
+func envMark(h int, ctx context.Context, name string) {
+	sdk.UnwrapSDKContext(ctx).KVStore(envs[h].key).Set(append(append([]byte{}, markPrefix...), name...), []byte{1})
+}
+
+// PRIMITIVE
+func envMarked(h int, name string) bool {
+	return envs[h].ctx.KVStore(envs[h].key).Has(append(append([]byte{}, markPrefix...), name...))
+}
 
 type nativeEnv struct {
 	key       *storetypes.KVStoreKey
@@ -580,6 +598,9 @@ func envAllEntries(h int) []Write {
 	defer it.Close()
 	var out []Write
 	for ; it.Valid(); it.Next() {
+		if bytes.HasPrefix(it.Key(), markPrefix) {
+			continue
+		}
 		out = append(out, Write{Key: append([]byte{}, it.Key()...), Value: append([]byte{}, it.Value()...)})
 	}
 	return out
@@ -652,6 +673,7 @@ type BankCall struct {
 }
 
 type Bank struct {
+	h     int
 	Calls []BankCall
 	// MayPanic: a failing call may also fail by panicking (C14: every way a dependency can fail)
 	MayPanic bool
@@ -664,6 +686,9 @@ func (b *Bank) SendCoinsFromAccountToModule(ctx context.Context, senderAddr sdk.
 	if err != nil && b.MayPanic && NondetBool("bank_panics_"+n) {
 		panic("bank: transfer panicked")
 	}
+	if err == nil {
+		envMark(b.h, ctx, "bank_"+n)
+	}
 	return err
 }
 
@@ -672,6 +697,7 @@ func (b *Bank) GetBalance(ctx context.Context, addr sdk.AccAddress, denom string
 }
 
 type FTF struct {
+	h          int
 	MintDenom  string
 	Burns      []fiattokenfactorytypes.MsgBurn
 	BurnErrs   []error
@@ -697,6 +723,7 @@ func (f *FTF) Burn(ctx sdk.Context, msg *fiattokenfactorytypes.MsgBurn) (*fiatto
 	if err != nil {
 		return nil, err
 	}
+	envMark(f.h, ctx, "burn_"+strconv.Itoa(len(f.Burns)-1))
 	return &fiattokenfactorytypes.MsgBurnResponse{}, nil
 }
 
@@ -710,6 +737,7 @@ func (f *FTF) Mint(ctx sdk.Context, msg *fiattokenfactorytypes.MsgMint) (*fiatto
 	if err != nil {
 		return nil, err
 	}
+	envMark(f.h, ctx, "mint_"+strconv.Itoa(len(f.Mints)-1))
 	return &fiattokenfactorytypes.MsgMintResponse{}, nil
 }
 
